@@ -456,10 +456,11 @@ class SecopClient(ProxyClient):
             while self._running:
                 while self.cleanup:
                     entry = self.cleanup.pop()
-                    for key, prev in self.active_requests.items():
-                        if prev is entry:
-                            self.active_requests.pop(key)
-                            break
+                    with self._pending_lock:  # the tx thread inserts into active_requests
+                        for key, prev in list(self.active_requests.items()):
+                            if prev is entry:
+                                self.active_requests.pop(key)
+                                break
                 # may raise ConnectionClosed
                 reply = self.io.readline()
                 if reply is None:
